@@ -13,7 +13,7 @@ The project is supposed to satisfy this semantic property:
 
 Your job: make ONE realistic source change ("seeded defect") under {wt} that BREAKS this property, while the project still compiles and its existing test suite still passes. The change should look like a plausible maintainer mistake or mis-optimisation (a dropped condition, an off-by-one at a boundary, a wrong ordering of two steps, a missing re-check, a stale cached value, ...), not sabotage that ordinary use would expose at once. It must need something specific to manifest: a particular multi-step sequence of operations, a size or budget at a boundary, a crash / fault / restart at a particular point, a particular interleaving, an unusual input, or two cooperating sites that each look fine alone. Keep it small (ideally < 25 changed lines). Do not edit existing tests, do not touch anything behind `#[cfg(walrus_verif)]` (that is unrelated instrumentation; leave it alone and do not rely on it), do not change public API signatures.
 
-Then write a demonstration: a NEW integration test file under {wt}/tests/ (or a small example program) that FAILS with your change applied and PASSES on the unchanged code. Verify both directions yourself (use `git stash` / `git diff` to switch; keep the demonstration file in both cases).
+Then write a demonstration: a NEW integration test file under {wt}/tests/ (or a small example program) that FAILS with your change applied and PASSES on the unchanged code. Verify both directions yourself: save your change with `git diff -- src > /tmp/<yourname>.diff` and switch with `git apply -R` / `git apply` (do NOT use `git stash`: the stash is shared between all worktrees of this repository and other people are working in sibling worktrees); keep the demonstration file in both cases.
 
 Practical notes:
  * No network. Always build offline: `cd {wt} && CARGO_NET_OFFLINE=true cargo build --offline`; run one test file with `CARGO_NET_OFFLINE=true cargo test --offline --test <name> -- --nocapture`.
